@@ -129,6 +129,23 @@ pub fn table_write(table: &str, block: u64, key: &[u8], value: Option<&[u8]>) {
     }
 }
 
+/// A stable name for one lock: its value type plus its address (three `SharedData<String>` statics would otherwise
+/// be indistinguishable). Interned, so the result can be kept in guards.
+pub fn lock_name(type_name: &'static str, addr: usize) -> &'static str {
+    static NAMES: Mutex<Vec<(usize, &'static str)>> = Mutex::new(Vec::new());
+    let mut g = match NAMES.lock() {
+        Ok(g) => g,
+        Err(e) => e.into_inner(),
+    };
+    if let Some((_, n)) = g.iter().find(|(a, _)| *a == addr) {
+        return n;
+    }
+    let short = type_name.rsplit("::").next().unwrap_or(type_name);
+    let n: &'static str = Box::leak(format!("{}@{:x}", short, addr).into_boxed_str());
+    g.push((addr, n));
+    n
+}
+
 /// Lock event: `mode` is `r` or `w`, `what` is `acq` or `rel`.
 pub fn lock_event(lock: &str, mode: &str, what: &str, at: &std::panic::Location<'_>) {
     if enabled() {
